@@ -242,6 +242,24 @@ def oracle(ref_raw, mtu, sent):
     return bad
 
 
+def refusal_class(ref_raw, mtu, sent):
+    ''' For the evidence only (not a verdict): when a bundle that had to be split was not sent at all, would a
+    first fragment carrying a single payload octet have fitted the MTU? '''
+    ref = view(ref_raw)
+    if not ref.get('ok') or mtu is None or sent or len(ref_raw) <= mtu or ref['flags'] & (FLAG_NOFRAG | FLAG_FRAG):
+        return None
+    (pri, blocks) = view_arrays(ref)
+    pay = [blk for blk in blocks if blk[0] == 1 and blk[1] == 1]
+    if not pay or not isinstance(pay[0][4], bytes) or not pay[0][4]:
+        return 'refused:empty-or-no-payload'
+    total = len(pay[0][4])
+    pri = pri[:8]
+    pri[1] |= FLAG_FRAG
+    pay[0][4] = pay[0][4][:1]
+    first = enc_bundle(pri + [0, total], blocks)
+    return 'refused:one-octet-first-fragment-would-fit' if len(first) <= mtu else 'refused:not-even-one-octet-fits'
+
+
 def strip_reentry_bibs(ref_raw, sent):
     ''' Security policy on: remove from every fragment the integrity blocks (type 11) that the property does not
     expect there, re-encode (plain cbor2, CRCs recomputed). :return: (normalised octets, number removed) '''
@@ -605,6 +623,10 @@ def run_cases(cases, label):
         chk.count('outcome', {0: 'unchanged', 1: 'fragments', 2: 'nothing-sent', 3: 'no-payload-block', 4: 'stuck', None: 'model-n/a'}[code])
         chk.count('fragments', min(len(sizes), 10) if code == 1 else 0)
         chk.count('payload_head', len(cbor2.dumps(case['plen'])))
+        if len(ref['tx']) == 1:
+            cls = refusal_class(ref['tx'][0], case['mtu'], got['tx'])
+            if cls:
+                chk.count('nothing_sent', cls)
         # non-trivial: the fragment step did something (split or refused); distinct by the whole case
         chk.case(ident=case_key(case), nontrivial=(code in (1, 2)),
                  sample=(dict(case={k: v for (k, v) in case.items() if k != 'ext'}, sizes=sizes[:12], model_code=code)
